@@ -134,10 +134,23 @@ pub fn sites(_tier: Tier) -> Vec<Site> {
             ("a NUL NUL b", b"a\0\0b".to_vec()),
             ("abc NUL", b"abc\0".to_vec()),
             ("full no NUL", vec![]),
+            // the byte in front of the NUL is half of something: a double-byte character cut after its lead
+            // byte, a lone caret, a marker without text, a high single byte
+            ("^J lead NUL xy", vec![b'^', b'J', 0x94, 0, b'x', b'y']),
+            ("^J char lead NUL x", vec![b'^', b'J', 0x94, 0xfc, 0x94, 0, b'x']),
+            ("^J char NUL xy", vec![b'^', b'J', 0x94, 0xfc, 0, b'x', b'y']),
+            ("^H lead NUL xy", vec![b'^', b'H', 0xa1, 0, b'x', b'y']),
+            ("^S lead NUL xy", vec![b'^', b'S', 0x81, 0, b'x', b'y']),
+            ("^K lead NUL xy", vec![b'^', b'K', 0x94, 0, b'x', b'y']),
+            ("lead NUL xy", vec![0x83, 0, b'x', b'y']),
+            ("caret NUL xy", vec![b'a', b'^', 0, b'x', b'y']),
+            ("^J NUL xy", vec![b'^', b'J', 0, b'x', b'y']),
+            ("e9 NUL xy", vec![0xe9, 0, b'x', b'y']),
+            ("^E e9 NUL ^L", vec![b'^', b'E', 0xe9, 0, b'^', b'L', 0xe9]),
         ];
         let n = tfs.len() as u64 * fills.len() as u64;
         sites.push(Site::new("decode-first-nul", n,
-            "every text-bearing field x hand-built field contents {text NUL text, NUL first, double NUL, exactly full without NUL}",
+            "every text-bearing field x hand-built field contents {text NUL text, NUL first, double NUL, exactly full without NUL, and 11 contents whose last byte before the NUL is half of something: a cut double-byte character in each double-byte page, a lone caret, a bare marker, a high byte}",
             move |i, acc| {
                 let t = &tfs2[(i / fills.len() as u64) as usize];
                 let (fname, fill) = &fills[(i % fills.len() as u64) as usize];
@@ -170,7 +183,8 @@ pub fn sites(_tier: Tier) -> Vec<Site> {
                     Ok(Ok(Some(p))) => {
                         let got = (t.get)(&p).unwrap_or_default();
                         let cut = first_nul_cut(&content);
-                        let want = String::from_utf8_lossy(cut).to_string();
+                        // (what the bytes in front of the NUL mean is the decoder's business - C10; here: nothing behind it counts)
+                        let want = if t.raw { String::from_utf8_lossy(cut).to_string() } else { to_lossy_string(cut).to_string() };
                         if got == want {
                             acc.class("cut-at-first-nul");
                             acc.nontrivial();
